@@ -53,6 +53,17 @@ func (m *rwAPI) Locker(w bool) sync.Locker {
 	return m.m.RLocker()
 }
 
+// deadlineCtx ends when its parent is cancelled but reports context.DeadlineExceeded, as a context whose deadline
+// passed does (the library must still return context.Canceled from Lock).
+type deadlineCtx struct{ context.Context }
+
+func (c deadlineCtx) Err() error {
+	if c.Context.Err() != nil {
+		return context.DeadlineExceeded
+	}
+	return nil
+}
+
 type adata struct {
 	cancel    context.CancelFunc
 	cancelled bool
@@ -61,6 +72,7 @@ type adata struct {
 }
 
 type sys struct {
+	nlock int // Lock calls so far
 	c    *ctl.Ctl
 	l    lockAPI
 	w    *hist.W
@@ -106,14 +118,21 @@ func (s *sys) exec(ev []uint64) (obs []uint64, ok bool) {
 	switch ev[0] {
 	case 1:
 		ctx, cancel := context.WithCancel(context.Background())
+		s.nlock++
+		if s.nlock%3 == 0 {
+			// every third Lock call gets a context that ends like a deadline: Err() is context.DeadlineExceeded
+			ctx = deadlineCtx{ctx}
+		}
 		write := ev[1] == 1
 		a := s.c.NewActor(kLock)
 		d := &adata{cancel: cancel, write: write}
 		a.Data = d
 		s.c.Go(a, func(a *ctl.Actor) {
 			rel, err := s.l.Lock(ctx, write)
-			if err != nil {
+			if err == context.Canceled {
 				a.Res = 4
+			} else if err != nil {
+				a.Res = 7 // any other error: the property names context.Canceled
 			} else {
 				d.release = rel
 				a.Res = 3
